@@ -404,7 +404,7 @@ func TestC04_WithdrawalSlice(t *testing.T) {
 				} else {
 					tx.Mined = rapid.SampledFrom([]int{0, 0, 0, 1, 2}).Draw(t, "mined")
 					tx.Pos = rapid.IntRange(0, 3).Draw(t, "pos")
-					tx.Proof = rapid.SampledFrom([]int{0, 0, 1, 2}).Draw(t, "proof")
+					tx.Proof = rapid.SampledFrom([]int{0, 0, 1, 2, 3, 3}).Draw(t, "proof")
 					tx.AtZero = rapid.IntRange(0, 5).Draw(t, "atZero") == 0
 				}
 			}
